@@ -4,10 +4,20 @@ S1  TLC checks HotParamConc.tla exhaustively: the per-value in-flight SETS equal
     (Conserved), the integer cell of the implementation-shaped layer equals their size (CounterOK), the
     cell-based decision equals the set-based one (DecisionOK), Capped, ZeroAfterDrain; and the broken
     variant Alias=TRUE (exit keyed by the latest arguments) must violate CounterOK (non-vacuity).
+    Concurrent admission: the same spec with K >= 1 splits the admission into Check -> (yield) -> Record with Exit
+    as a separate action, K callers inside the path at a time: Conserved / CounterOK in every state, Capped with
+    the slack K - 1 (PendCapped counts the parked admitted callers, too); CappedStrict (no slack) must be
+    violated for K = 2 and the broken variant DropZero=TRUE (a cell returning to zero is removed, the record
+    step skips a missing cell) must violate CounterOK for K = 1 while it passes for K = 0 (non-vacuity).
 S2  scenarios: (a) one per transition of a small bounded instance (ACTION_CONSTRAINT Emit), (b) TLC random
     simulation of a larger one, (c) seeded random histories (3 ruled resources, specific items, index /
     negative index / attachment key, argument types cycled), (d) many-goroutine stress runs.
-    Every scenario ends with a drain and a post-drain admission probe per value.
+    (e) gated schedules: EVERY interleaving of the check / record / exit steps of 3 callers of one value (TLC,
+    VIEW hview), a sample of those of 4 callers, one per transition of larger K-instances, and seeded random
+    histories with parked callers; replayed with the goroutine gate (a caller is parked at chain.checked while
+    the main goroutine opens / exits / probes other entries).
+    Every scenario ends with a drain and a post-drain admission probe per value (gated ones: first every parked
+    caller records and the value is probed with its entries still live).
 S3  harness/cmd/c06 replays them on the real code (hotspot.LoadRules, api.Entry(WithArgs/WithAttachments),
     Exit) and records decision, TriggeredValue, Input.Args of every live entry after every op, probe counts.
 S4  HotParamConc_Trace.tla (TLC) judges every recorded observable.
@@ -29,26 +39,34 @@ RULESETS = {
     'MCRules1': {'A': dict(thr=1, items={'a': 0, 'b': 2}), 'B': dict(thr=2, items={})},
     'MCRules2': {'A': dict(thr=0, items={'c': 1}), 'B': dict(thr=1, items={'a': 2})},
     'MCRules3': {'A': dict(thr=2, items={'a': 1})},
+    'MCRules4': {'A': dict(thr=2, items={'a': 1})},
+    'MCRules5': {'A': dict(thr=1, items={'b': 3})},
 }
+INVS = 'TypeOK Conserved CounterOK Capped PendCapped ZeroAfterDrain DecisionOK'
 
 
-def mc_cfg(rules, maxops, maxlive, alias=False, res='MCRes', emit=False, inv=True):
+def mc_cfg(rules, maxops, maxlive, alias=False, res='MCRes', emit=False, inv=True, k=0, drop=False, values='MCValues', oth='MCOth',
+           view='view', nonone=False):
+    """inv: True = all invariants, False = none, or the names to check"""
+    ac = (['NoNone'] if nonone else []) + (['Emit'] if emit else [])
     return """SPECIFICATION Spec
 CONSTANTS
   Res <- %s
-  Oth <- MCOth
-  Values <- MCValues
+  Oth <- %s
+  Values <- %s
   Rules <- %s
   MaxLive = %d
   MaxOps = %d
   Alias = %s
-VIEW view
+  K = %d
+  DropZero = %s
+VIEW %s
 %s
 %s
 CHECK_DEADLOCK FALSE
-""" % (res, rules, maxlive, maxops, 'TRUE' if alias else 'FALSE',
-       'INVARIANTS TypeOK Conserved CounterOK Capped ZeroAfterDrain DecisionOK' if inv else '',
-       'ACTION_CONSTRAINT Emit' if emit else '')
+""" % (res, oth, values, rules, maxlive, maxops, 'TRUE' if alias else 'FALSE', k, 'TRUE' if drop else 'FALSE', view,
+       'INVARIANTS ' + (INVS if inv is True else inv) if inv else '',
+       'ACTION_CONSTRAINT ' + ' '.join(ac) if ac else '')
 
 
 # ------------------------------------------------------------------------------------------ scenarios
@@ -95,8 +113,16 @@ def shape(rng, idx, key, v, fillers=('x', 'y')):
     return args, atts
 
 
-def finish(rng, s, rules, used):
-    """drain + post-drain admission probe for every (resource, value) used"""
+def finish(rng, s, rules, used, gated=False):
+    """drain + post-drain admission probe for every (resource, value) used; a gated scenario first lets every parked caller
+    record and probes every value with its entries still live (quiescence: exactly thr - live further entries are admitted)"""
+    if gated:
+        s.append(dict(op='recall', order=rng.choice(['fifo', 'lifo'])))
+        for res, v in sorted(used):
+            if v == '-' or res not in rules:
+                continue
+            args, atts = shape(rng, rules[res]['idx'], rules[res]['key'], v)
+            s.append(dict(op='probe', res=res, args=args, atts=atts))
     s.append(dict(op='exitall', order=rng.choice(['fifo', 'lifo'])))
     for res, v in sorted(used):
         if v == '-' or res not in rules:
@@ -114,23 +140,24 @@ def decorate(c, hist, tr, ruleset):
         rules[res] = dict(thr=r['thr'], items=r['items'], idx=idx, key=key, cap=0)
     s = [dict(op='new', tr=tr, ty=rng.choice(TYPES), rules=rules)]
     used = set()
+    gated = any(o['op'] == 'chk' for o in hist)
     for o in hist:
-        if o['op'] == 'req':
+        if o['op'] in ('req', 'chk'):
             if o['res'] in rules:
                 args, atts = shape(rng, rules[o['res']]['idx'], rules[o['res']]['key'], o['v'])
                 used.add((o['res'], o['v']))
             else:
                 # entries on a resource without a rule: same arity as the common case, so the pooled option slice is reused in place
                 args, atts = rng.choice([[o['v']], [o['v']], [o['v'], 'x']]), {}
-            s.append(dict(op='req', id=o['id'], res=o['res'], args=args, atts=atts, b=rng.choice([1, 1, 1, 2, 3])))
+            s.append(dict(op=o['op'], id=o['id'], res=o['res'], args=args, atts=atts, b=rng.choice([1, 1, 1, 2, 3])))
         else:
-            s.append(dict(op='exit', id=o['id']))
-        if rng.random() < 0.08 and used:
+            s.append(dict(op=o['op'], id=o['id']))      # exit / rec
+        if rng.random() < (0.2 if gated else 0.08) and used:
             res, v = rng.choice(sorted(used))
             if v != '-':
                 a, t = shape(rng, rules[res]['idx'], rules[res]['key'], v)
                 s.append(dict(op='probe', res=res, args=a, atts=t))
-    finish(rng, s, rules, used)
+    finish(rng, s, rules, used, gated)
     return s
 
 
@@ -175,6 +202,45 @@ def random_scenario(c, tr):
                 a, t = shape(rng, rules[res]['idx'], rules[res]['key'], v)
                 s.append(dict(op='probe', res=res, args=a, atts=t))
     finish(rng, s, rules, used)
+    return s
+
+
+def random_gated_scenario(c, tr):
+    """seeded random history with up to k callers parked between check and record while other entries of the same (and of
+    other) values and resources are opened, exited and probed"""
+    rng = c.rng
+    rules = random_rules(rng, zero_ok=rng.random() < 0.15)
+    k = rng.choice([1, 1, 2, 2, 3])
+    s = [dict(op='new', tr=tr, ty=rng.choice(TYPES), rules=rules)]
+    live, pend, used, nid = [], [], set(), 0
+    vals = ['a', 'b', 'c', 'd'][:rng.randint(1, 3)]
+    for _ in range(rng.randint(8, 36)):
+        x = rng.random()
+        if x < 0.45 and len(pend) < k:
+            nid += 1
+            res = rng.choice(sorted(rules) * 3 + ['o'])
+            v = rng.choice(vals) if rng.random() < 0.93 else '-'
+            if res in rules:
+                args, atts = shape(rng, rules[res]['idx'], rules[res]['key'], v)
+                used.add((res, v))
+            else:
+                args, atts = ([] if v == '-' else [v]), {}
+            op = 'chk' if rng.random() < 0.55 else 'req'
+            s.append(dict(op=op, id=nid, res=res, args=args, atts=atts, b=rng.choice([1, 1, 1, 2, 5])))
+            (pend if op == 'chk' else live).append(nid)
+        elif x < 0.62 and pend:
+            i = pend.pop(rng.randrange(len(pend)))
+            s.append(dict(op='rec', id=i))
+            live.append(i)
+        elif x < 0.92 and live:
+            s.append(dict(op='exit', id=live.pop(rng.choice([0, -1, rng.randrange(len(live))]))))
+        else:
+            cand = [u for u in sorted(used) if u[1] != '-']
+            if cand:
+                res, v = rng.choice(cand)
+                a, t = shape(rng, rules[res]['idx'], rules[res]['key'], v)
+                s.append(dict(op='probe', res=res, args=a, atts=t))
+    finish(rng, s, rules, used, gated=True)
     return s
 
 
@@ -228,11 +294,11 @@ def binding_selftest(c, tp, bad_traces):
     for tr, lines in traces.items():
         if tr in bad_traces or len(want) >= 40:
             continue
-        cand = [e for e in lines if e['op'] in ('req', 'probe')]
+        cand = [e for e in lines if e['op'] in ('req', 'rec', 'probe')]
         if not cand:
             continue
         e = c.rng.choice(cand)
-        if e['op'] == 'req':
+        if e['op'] in ('req', 'rec'):
             e['ok'] = not e['ok']
         else:
             e['n'] += 1
@@ -274,6 +340,7 @@ def describe(exp, obs):
     return {'decision': 'admission decision differs: property admits=%s with %s live entries for value %s (threshold %s)' % (
                 exp.get('admit'), exp.get('inflight'), exp.get('v'), exp.get('thr')),
             'tv': 'TriggeredValue of the rejection is not live+1 = %s' % exp.get('tv'),
+            'cap': 'more live entries for value %s than threshold + (overlapping callers - 1) = %s' % (exp.get('v'), exp.get('cap')),
             'live-args': 'a live entry no longer reads the arguments it was opened with (expected %s)' % json.dumps(exp.get('live')),
             'probe': 'admission count for value %s is not threshold - live = %s' % (exp.get('v'), exp.get('n')),
             'probe-tv': 'TriggeredValue of the first rejected probe is not %s' % exp.get('tv'),
@@ -318,9 +385,15 @@ def handle_mismatches(c, drv, scns, mism, tp, tag):
 
 def nontrivial(s):
     """the per-value count matters: a value is requested while an earlier entry for it may still be live"""
-    seen = set()
+    seen, parked = set(), set()
     for o in s:
-        if o['op'] == 'req':
+        if o['op'] == 'chk':
+            parked.add(o['id'])
+        elif o['op'] == 'rec':
+            parked.discard(o['id'])
+        elif parked and o['op'] in ('req', 'exit'):
+            return True         # another entry is opened / exited while a caller sits between its check and its record
+        if o['op'] in ('req', 'chk'):
             k = (o['res'], json.dumps(o['args']), json.dumps(o['atts'], sort_keys=True))
             if k in seen:
                 return True
@@ -367,6 +440,27 @@ def check(c, tier, replay):
     if r.violated != 'CounterOK':
         raise MachineryError('vacuity self-test failed: the Alias=TRUE variant does not violate CounterOK (%s)' % (r.violated or r.error))
     c.cov['spec_mutant'] = 'Alias=TRUE (exit keyed by the latest arguments) violates CounterOK'
+    # concurrent admission path: Check -> (yield) -> Record, Exit separate, K callers inside at a time
+    kruns = [('MCRules4', 6, 4, 'MCRes1', 'MCValues2', 2), ('MCRules5', 6, 4, 'MCRes1', 'MCValues2', 3), ('MCRules1', 4, 4, 'MCRes', 'MCValues', 2)] \
+        if not thorough else \
+            [('MCRules4', 8, 5, 'MCRes1', 'MCValues2', 2), ('MCRules5', 7, 5, 'MCRes1', 'MCValues2', 3), ('MCRules1', 6, 4, 'MCRes', 'MCValues', 2),
+             ('MCRules2', 6, 4, 'MCRes', 'MCValues', 2)]
+    for rules, mo, ml, res, vals, k in kruns:
+        r = c.model_check('HotParamConc_MC', cfg_text=mc_cfg(rules, mo, ml, res=res, values=vals, k=k), workers=8, timeout=2400)
+        if not r.completed:
+            c.inconclusive.append('HotParamConc.tla (K=%d): %s violated for %s - the spec no longer describes a correct design' % (k, r.violated, rules))
+    r = c.tlc('HotParamConc_MC', cfg_text=mc_cfg('MCRules4', 6, 4, res='MCRes1', values='MCValues2', k=1, drop=True), workers=4, timeout=600, count=False)
+    if r.violated != 'CounterOK':
+        raise MachineryError('vacuity self-test failed: the DropZero=TRUE variant with K=1 does not violate CounterOK (%s)' % (r.violated or r.error))
+    r = c.tlc('HotParamConc_MC', cfg_text=mc_cfg('MCRules4', 6, 4, res='MCRes1', values='MCValues2', k=0, drop=True), workers=4, timeout=600, count=False)
+    if not r.completed:
+        raise MachineryError('self-test failed: the DropZero=TRUE variant is expected to pass when admission is one step (K=0): %s' % (r.violated or r.error))
+    r = c.tlc('HotParamConc_MC', cfg_text=mc_cfg('MCRules4', 6, 4, res='MCRes1', values='MCValues2', k=2, inv='CappedStrict'), workers=4, timeout=600,
+              count=False)
+    if r.violated != 'CappedStrict':
+        raise MachineryError('self-test failed: with K=2 the cap without slack must be exceeded in the model (%s)' % (r.violated or r.error))
+    c.cov['spec_mutant_concurrent'] = ('DropZero=TRUE (cell removed when it returns to zero, record skips a missing cell) violates CounterOK for K=1 '
+                                       'and passes for K=0; CappedStrict (no slack) is violated for K=2, Capped/PendCapped with slack K-1 hold')
     c.cov['exhaustive'] = True
     # S2 ---------------------------------------------------------------------------------
     scns, tr = [], 0
@@ -397,6 +491,45 @@ def check(c, tier, replay):
             tr += 1
             scns.append(decorate(c, hist, tr, rules))
         c.log('S2 TLC simulation %s: %d behaviours' % (rules, len(keep)))
+    # gated schedules (concurrent admission path)
+    gs = []
+    #  - every interleaving of the check / record / exit steps of 3 callers of ONE value (threshold 2); thorough: 4 callers
+    for ncall, cap in ([(3, None), (4, 500)] if not thorough else [(3, None), (4, None)]):
+        r = c.tlc('HotParamConc_MC', cfg_text=mc_cfg('MCRules4', ncall, ncall, res='MCRes1', values='MCValues1', oth='MCOth0', k=2, emit=True,
+                                                      inv=False, view='hview', nonone=True), workers=4, timeout=1200, count=False)
+        if r.error:
+            raise MachineryError('schedule enumeration failed: %s' % r.error)
+        hs = r.json_prints()
+        keep = [x for x in maximal(hs) if any(o['op'] == 'chk' for o in x)]
+        n_all = len(keep)
+        if cap and len(keep) > cap:
+            keep = c.rng.sample(keep, cap)
+        for hist in keep:
+            tr += 1
+            gs.append(decorate(c, hist, tr, 'MCRules4'))
+        c.cov['schedules_%d_callers' % ncall] = '%d histories, %d maximal with a parked caller, %d replayed' % (len(hs), n_all, len(keep))
+        c.log('S2 schedule enumeration, %d callers of one value, K=2: %d histories -> %d maximal -> %d scenarios' % (ncall, len(hs), n_all, len(keep)))
+    #  - one per transition of larger K-instances (two values / two resources + unruled resource, K = 2 and 3)
+    for rules, mo, ml, res, vals, k in ([('MCRules4', 4, 3, 'MCRes1', 'MCValues2', 2), ('MCRules5', 4, 4, 'MCRes1', 'MCValues2', 3)] if not thorough else
+                                        [('MCRules4', 5, 4, 'MCRes1', 'MCValues2', 2), ('MCRules5', 5, 4, 'MCRes1', 'MCValues2', 3),
+                                         ('MCRules1', 4, 3, 'MCRes', 'MCValues', 2)]):
+        r = c.tlc('HotParamConc_MC', cfg_text=mc_cfg(rules, mo, ml, res=res, values=vals, k=k, emit=True, inv=False), workers=4, timeout=1200,
+                  count=False)
+        if r.error:
+            raise MachineryError('scenario generation failed: %s' % r.error)
+        hs = r.json_prints()
+        keep = [x for x in maximal(hs) if any(o['op'] == 'chk' for o in x)]
+        cap = 500 if not thorough else 6000
+        if len(keep) > cap:
+            keep = c.rng.sample(keep, cap)
+        for hist in keep:
+            tr += 1
+            gs.append(decorate(c, hist, tr, rules))
+        c.log('S2 transition cover %s K=%d: %d transitions -> %d scenarios' % (rules, k, len(hs), len(keep)))
+    gated_tlc = len(gs)
+    for _ in range(300 if not thorough else 4000):
+        tr += 1
+        gs.append(random_gated_scenario(c, tr))
     nrand = 400 if not thorough else 5000
     rs = []
     for _ in range(nrand):
@@ -408,28 +541,47 @@ def check(c, tier, replay):
         st.append(stress_scenario(c, tr, g, n))
     # S3 + S4 ----------------------------------------------------------------------------
     selftested = False
-    for tag, group in (('tlc', scns), ('rand', rs), ('stress', st)):
+    for tag, group in (('tlc', scns), ('gated', gs), ('rand', rs), ('stress', st)):
         for i in range(0, len(group), 3000):
             part = group[i:i + 3000]
-            mism, tp = run_and_validate(c, drv, part, '%s%d' % (tag, i))
+            try:
+                mism, tp = run_and_validate(c, drv, part, '%s%d' % (tag, i))
+            except MachineryError as e:
+                # the free-running goroutines can bring the process down on a tree whose defect was already reproduced twice from
+                # replay files by the sequential / gated stages (e.g. a Go runtime "concurrent map" abort): the verdict stands
+                if tag != 'stress' or not c.violations:
+                    raise
+                c.inconclusive.append('stress stage did not run to completion: %s' % str(e)[:300])
+                c.log('stress stage skipped after a harness failure (violations already confirmed): %s' % str(e)[:200])
+                continue
             if not selftested and tag != 'stress':
                 binding_selftest(c, tp, {m[0] for m in mism})
                 selftested = True
             c.cov['mismatching_traces'] = c.cov.get('mismatching_traces', 0) + len(mism)
-            handle_mismatches(c, drv, part, mism, tp, tag)
-    allscn = scns + rs + st
+            try:
+                handle_mismatches(c, drv, part, mism, tp, tag)
+            except MachineryError as e:
+                if tag != 'stress' or not c.violations:
+                    raise
+                c.inconclusive.append('confirmation of a stress mismatch did not run to completion: %s' % str(e)[:300])
+    allscn = scns + gs + rs + st
+    c.cov['gated_scenarios'] = '%d from TLC (schedule enumeration + transition cover of K-instances), %d seeded random' % (gated_tlc, len(gs) - gated_tlc)
     c.cov['distinct_nontrivial'] = len({json.dumps(s[1:], sort_keys=True) for s in allscn if nontrivial(s)})
     c.cov['stress_runs'] = len(st)
     c.cov['rule'] = ('scenarios = one per transition of the bounded HotParamConc spec (%d) + TLC random simulation + seeded random histories '
                      '+ many-goroutine stress runs, each ending in a drain and a post-drain admission probe per value; non-trivial = distinct '
-                     'scenario in which some (resource, argument list) is requested at least twice (so the per-value count decides) or a '
-                     'concurrent stress run' % cover_n)
+                     'scenario in which some (resource, argument list) is requested at least twice (so the per-value count decides), or '
+                     'another entry is opened / exited while a caller is parked between its check and its record (gated schedules from '
+                     'HotParamConc with K >= 1), or a concurrent stress run' % cover_n)
     c.sample(scns[len(scns) // 2][:8])
+    c.sample(gs[0][:10])
     c.sample(rs[0][:8])
     c.sample(st[0][:3])
     c.assumptions += ['argument values are hashable (comparable Go values); unhashable arguments are the business of C01',
                       'ParamsMaxCapacity of a concurrency rule is never below the number of values in use (the statement has no capacity clause)',
                       'the many-goroutine runs are judged at quiescence only (conservation), not per decision',
+                      'concurrent admission is explored at the grain of the yield point chain.checked (between the rule checks and the '
+                      'statistic slots): one caller step = check or record; finer interleavings inside a slot are not scheduled',
                       'when a rule has both an attachment key and an index, the key has priority and the index is the fall-back',
                       'TLC model checking is exhaustive only for the bounded instances listed in tlc_runs']
 
